@@ -92,7 +92,7 @@ func genCase(c *vf.Ctx, no int) caseDef {
 }
 
 func run(c *vf.Ctx) {
-	c.Rule("case = one credential store drawn from the universe {u1,u2,*} x {partition of the 13 permissions, all vs none, single vs rest, 2-3 permissions, anonymous grants} installed on a live 2-node in-process cluster (HTTP service and inter-node service of both nodes; one variant leaves the follower without any store so that forwarded requests are decided by the leader's inter-node check alone); request = one of 63 HTTP route/method/parameter combinations (every route of ServeHTTP) sent over a raw socket, or one of 19 raw inter-node frames (every Command type), x credential presentation {none, unknown user, wrong password, empty password, right password of each user} x node role {leader, follower}; the expected decision comes from the documented permission table and the C19 rule. non-trivial = request whose verdict was reached (complete response, state compared); distinct by (variant, surface, route, role, presentation, expected decision, store)")
+	c.Rule("case = one credential store drawn from the universe {u1,u2,*} x {partition of the 13 permissions, all vs none, single vs rest, 2-3 permissions, anonymous grants} installed on a live 2-node in-process cluster (HTTP service and inter-node service of both nodes; one variant leaves the follower without any store so that forwarded requests are decided by the leader's inter-node check alone); request = one of 62 HTTP route/method/parameter combinations (every route of ServeHTTP) sent over a raw socket, or one of 19 raw inter-node frames (every Command type), x credential presentation {none, unknown user, wrong password, empty password, right password of each user} x node role {leader, follower}; the expected decision comes from the documented permission table and the C19 rule. non-trivial = request whose verdict was reached (complete response, state compared); distinct by (variant, surface, route, role, presentation, expected decision, store)")
 	c.Assume("permission table: execute, query, query+execute for /db/request, backup, load for load and boot, snapshot for snapshot and reap, status for status/nodes/licenses/expvar/pprof, ready, remove, leader-ops, ui; inter-node: the same per command, join for voter join and notify, join-read-only or join-read-replica for non-voter join")
 	c.Assume("routes and commands without a documented permission (/, /console redirect, OPTIONS, unknown path, GET_NODE_META, LOAD_CHUNK, HIGHWATER_MARK_UPDATE, UNKNOWN) are asserted only to disclose nothing and to change nothing")
 	c.Assume("for a method the route does not serve, 401 or 405 both count as refusal")
